@@ -3,6 +3,7 @@ package main
 
 import (
 	"fmt"
+	"os"
 	"reflect"
 	"sort"
 
@@ -109,11 +110,20 @@ func testsOf(acc *core.TestCoverage) map[string]map[string][]int {
 }
 
 func main() {
+	if spec := os.Getenv("C27_STRESS_CHILD"); spec != "" {
+		stressChild(spec) // stream 4 runs its goroutines in a process of its own (states.go)
+		return
+	}
 	lib.Main("C27", func(c *lib.Ctx) {
-		c.Model("From PlzV Require Import Model.C27.", "C27.case", "C27.check")
+		// Model/C27.v is the model of the merge itself (streams 1, 2: its cases are wrapped in CBase);
+		// Model/C27_states.v adds state copies, concurrency and flaky retries (streams 3-5).
+		c.Model("From PlzV Require Import Model.C27 Model.C27_states.", "C27_states.case", "C27_states.check")
 		c.Rule("exhaustive pairs of coverage vectors up to a length bound over the 4 line states through core.MergeCoverageLines; " +
 			"random multisets of labelled runs (1-5 runs, 1-3 files from a pool of 4 names, vectors of length 0-6, one third with a repeated test label; each run object's Tests[label] aliases its Files map as the result parsers build it) through TestCoverage.Aggregate in all (<=4 runs) or 24 sampled orders, checking order independence, best state, idempotence, the per-test breakdown and that merged-in objects are not modified. " +
-			"distinct = distinct inputs; non-trivial = both vectors non-empty and different (pairs) or >=2 runs sharing a file (multisets)")
+			"histories on real BuildStates (1-4 runs, 0-3 copies made by ForSubrepo/ForArch of any earlier state, two thirds with all copies made before the first result, runs logged by LogTestResult on any state), replayed in all (<=3 runs) or 6 sampled completion orders: every state must report the best state per line over all runs; " +
+			"three shapes of many runs finishing at the same moment on a state and its copies (own process; lost lines or a runtime abort fail); " +
+			"flaky targets (flaky 1-4, attempts = shell commands writing different go-cover profiles and failing/passing, one third in a subrepo) through test.Test in process: the reported coverage must be the best over all attempts that ran. " +
+			"distinct = distinct inputs; non-trivial = both vectors non-empty and different (pairs), >=2 runs sharing a file (multisets), >=2 runs with one logged on a copy (histories), >=2 differing attempts run (flaky)")
 
 		// --- 1. pairs, exhaustive: correspondence up to lenCorr, oracle laws up to lenOracle
 		lenCorr, lenOracle := c.Scale(2, 3), c.Scale(3, 4)
@@ -134,7 +144,7 @@ func main() {
 					c.Fail("merge-not-idempotent", fmt.Sprintf("merging %v twice into %v changes the result: %v then %v", b, a, ab, aab), in)
 				}
 				if len(a) <= lenCorr && len(b) <= lenCorr {
-					c.Case(lib.App("CMerge", coqLines(a), coqLines(b), coqLines(ab)), in,
+					c.Case(lib.App("CBase", lib.App("CMerge", coqLines(a), coqLines(b), coqLines(ab))), in,
 						fmt.Sprint("m", a, b), len(a) > 0 && len(b) > 0 && !eq(a, b))
 				} else {
 					c.Eval(in, fmt.Sprint("m", a, b), len(a) > 0 && len(b) > 0 && !eq(a, b))
@@ -262,10 +272,14 @@ func main() {
 				}
 				coqTests = append(coqTests, lib.Pair(lib.Str(l), coqRun(m, lib.SortedKeys(m))))
 			}
-			c.Case(lib.App("CAggT", lib.List(coqRuns), coqRun(acc.Files, lib.SortedKeys(acc.Files)), lib.List(coqTests)),
+			c.Case(lib.App("CBase", lib.App("CAggT", lib.List(coqRuns), coqRun(acc.Files, lib.SortedKeys(acc.Files)), lib.List(coqTests))),
 				map[string]any{"runs": jsRuns(runs), "labels": labels, "order": o, "files": jsRun(acc.Files), "tests": ts},
 				fmt.Sprint("a", jsRuns(runs), labels, o), shared && nruns >= 2)
 		}
+
+		statesStream(c) // --- 3. the same through real BuildStates and their copies, in several orders (states.go)
+		stressStream(c) // --- 4. many runs finishing at once on a state and its copies (states.go)
+		flakyStream(c)  // --- 5. flaky targets whose attempts cover different lines, through test.Test (flaky.go)
 	})
 }
 
